@@ -7,7 +7,12 @@ ORDER, into the atomic steps of a small register machine (Model/ConcBase.lean: `
   read r f         local := memory->f            (ONE plain read of a descriptor field)
   write f e        memory->f := e                (ONE plain write of a descriptor field)
   brUnless c k     `if (c) { <k steps> }`        (forward skip of the k steps of the body when c == 0)
-  ret e | lock | unlock | realloc r p n | memset d v n | abort
+  ret e | lock | unlock | realloc r p n | memset p off v n | abort
+
+The non-shared path is captured too: `realloc(memory->data, <size>)` becomes `realloc r p n` (n = the byte size
+expression), `memset(<pointer local> + <offset>, <value>, <length>)` becomes `memset p off v n` with the destination
+split into the pointer register and the U32 offset expression (any other destination shape is an ExtractFail), so
+that Model/GrowContent.lean can state which bytes of the block returned by realloc are zeroed.
 
 Every occurrence of `memory->f` inside an expression becomes its own `read` step into a fresh
 temporary, in evaluation order, immediately before the step that uses it — so the position of each
@@ -174,8 +179,17 @@ class Flattener:
                     t = self.expr(e.rhs, pre)
                     return pre + [f".write .{self.field(e.lhs)} {t}"]
             if isinstance(e, Call) and e.f == "memset" and len(e.args) == 3:
-                a = [self.expr(x, pre) for x in e.args]
-                return pre + [f".memset {a[0]} {a[1]} {a[2]}"]
+                dst = e.args[0]
+                if isinstance(dst, Var) and self.types.get(dst.n) == ("u8", 1):
+                    ptr, off = self.reg(dst.n), "(.lit 0)"
+                elif isinstance(dst, Bin) and dst.op == "add" and isinstance(dst.a, Var) \
+                        and self.types.get(dst.a.n) == ("u8", 1):
+                    ptr, off = self.reg(dst.a.n), self.expr(dst.b, pre)
+                else:
+                    self.fail("memset destination is not `<U8* local>` or `<U8* local> + <U32 offset>`")
+                v = self.expr(e.args[1], pre)
+                n = self.expr(e.args[2], pre)
+                return pre + [f".memset {ptr} {off} {v} {n}"]
             if isinstance(e, Call) and e.f == "abort" and not e.args:
                 return [".abort"]
             self.fail("expression statement of an unmodelled shape")
